@@ -36,7 +36,7 @@ CLAIMS = {
              "geometry x transform grid (so that every iterator branch - the linear one-scanline shortcut, the "
              "affine and projective branches of all three kinds - is reached where a wrong branch changes pixels) plus "
              "seeded safety scenarios (unsorted/garbage stops, degenerate geometry, singular transforms) run on the real "
-             "library under AddressSanitizer with a watchdog.",
+             "library under AddressSanitizer with a watchdog. " + 'Stop lists of 16 .. 100 stops on a 1/64 lattice (repeated positions, pixels landing on stops) are rendered for every kind, repeat mode and pipeline. A parameter exactly on a jump of the colour function is accepted on either side (the t +- 2/65536 hull), so a stop search that errs only there is not detectable.' + "",
         ref="5 C13"),
 }
 
